@@ -48,6 +48,9 @@ func drawQCase(t *rapid.T) sim.QCase {
 		c.Me = cfg.Order[1]
 	}
 	c.Timeouts = rapid.IntRange(0, n).Draw(t, "timeouts")
+	if c.Scenario == "elect" {
+		c.Jump = rapid.SampledFrom([]int{0, 0, 0, 1, 2, 5}).Draw(t, "jump")
+	}
 	// senders: a permutation of everybody (members and outsiders), with a few repeats sprinkled in
 	all := rapid.Permutation(seq(n+cfg.Outsiders)).Draw(t, "senders")
 	for _, s := range all {
@@ -91,7 +94,46 @@ func TestC06InUse(t *testing.T) {
 	})
 }
 
+// C18 (behavioural part, both directions): the member at position (view mod n) takes the lead of that view as soon as votes of
+// quorum weight for it have arrived - also when that view is several rotations ahead of the view the member is in.
+func TestC18Elect(t *testing.T) {
+	col := ev.Get("C18")
+	rapid.Check(t, func(t *rapid.T) {
+		c := drawQCase(t)
+		c.Scenario = "elect"
+		c.Cfg.Focus = "C18"
+		c.Jump = rapid.SampledFrom([]int{0, 1, 1, 2, 3, 7}).Draw(t, "jump18")
+		c.Timeouts = rapid.SampledFrom([]int{0, 0, 1, 2}).Draw(t, "timeouts18")
+		r := sim.RunQCase(c)
+		col.Case()
+		col.Class(fmt.Sprintf("elect:jump=%d", c.Jump))
+		if r.Acted {
+			col.Class("elect:took-the-lead")
+			b, _ := json.Marshal(c)
+			col.NonTrivial(string(b))
+		}
+		if v := r.W.Viol; v != nil {
+			v.Property, v.Kind, v.Replayer, v.Case = "C18", "leader-does-not-take-its-turn:"+v.Kind, "Q18", c
+			if msg := ev.Report(v); msg != "" {
+				t.Fatal(msg)
+			}
+		}
+	})
+}
+
 func init() {
+	replayers["Q18"] = func(raw json.RawMessage) *ev.Violation {
+		var c sim.QCase
+		if err := json.Unmarshal(raw, &c); err != nil {
+			return &ev.Violation{Property: "C18", Kind: "bad-replay-file", Detail: err.Error()}
+		}
+		r := sim.RunQCase(c)
+		if v := r.W.Viol; v != nil {
+			v.Property, v.Kind, v.Replayer, v.Case = "C18", "leader-does-not-take-its-turn:"+v.Kind, "Q18", c
+			return v
+		}
+		return nil
+	}
 	replayers["Q"] = func(raw json.RawMessage) *ev.Violation {
 		var c sim.QCase
 		if err := json.Unmarshal(raw, &c); err != nil {
